@@ -63,6 +63,11 @@ func (p *Program) findFuncs(names []string) ([]target, error) {
 			return nil, fmt.Errorf("function name %q must be pkg.Key", n)
 		}
 		key := n[i+1:]
+		altSpec := ""
+		if j := strings.Index(key, "@"); j >= 0 {
+			altSpec = key[j+1:]
+			key = key[:j]
+		}
 		lit := 0
 		if j := strings.LastIndex(key, "$"); j >= 0 {
 			fmt.Sscanf(key[j+1:], "%d", &lit)
@@ -72,7 +77,29 @@ func (p *Program) findFuncs(names []string) ([]target, error) {
 		if f == nil {
 			return nil, fmt.Errorf("function %s not found in /repo (contract target missing)", n)
 		}
-		out = append(out, target{f, lit})
+		tg := target{fn: f, lit: lit}
+		if altSpec != "" {
+			k := strings.Index(altSpec, ".")
+			if k < 0 {
+				return nil, fmt.Errorf("alternative contract %q must be pkg.Key", altSpec)
+			}
+			var ac *Contract
+			for _, c := range p.specs.Contracts {
+				if c.Pkg != "" && c.Key == altSpec[k+1:] {
+					if pk := p.pkgs[c.Pkg]; pk != nil && pk.Types.Name() == altSpec[:k] {
+						ac = c
+					}
+				}
+			}
+			if ac == nil {
+				ac = p.specs.Contracts[altSpec] // library contract (e.g. io.Closer.Close)
+			}
+			if ac == nil {
+				return nil, fmt.Errorf("contract %s not found", altSpec)
+			}
+			tg.alt, tg.altName = ac, altSpec
+		}
+		out = append(out, tg)
 	}
 	return out, nil
 }
